@@ -21,7 +21,8 @@ TRUSTED_BASE = [
     "Coq 8.16.1 kernel (coqc; vm_compute used in Examples only; no native_compute)",
     "axioms: none (Print Assumptions of every pinned theorem = 'Closed under the global context')",
     "extraction: ExtrOcamlBasic only (no Extract Constant/Inductive of our own); OCaml 4.13.1",
-    "hand-written glue: ocaml/driver.ml, harness/src/*.rs, tools/*.py",
+    "hand-written glue: ocaml/driver.ml, harness/src/*.rs, tools/*.py (incl. the two source-to-Coq translators: "
+    "tools/srcconsts.py -> coq/SrcConsts.v, tools/c15.py -> coq/SharedShape.v)",
     "cryptographic primitives (BLAKE2b-256, CRC-32, Ed25519) are parameters of the model; at run time "
     "both sides use the blake2 / crc32fast / ed25519-dalek crates",
     "dependency crates flat-tree, compact-encoding, random-access-* are modelled, not verified",
@@ -87,10 +88,17 @@ def coq_gate(prop_file, clean=False):
     assumptions, wall_s, checker_cmd)."""
     t0 = time.time()
     problems = []
+    thorough = clean
+    if os.environ.get("VERIF_ESCALATED"):
+        clean = thorough = False      # an escalated search re-uses the build of the quick run
+    chk_out = None
     lk = _lock()
     try:
         if clean:
             run("make clean >/dev/null 2>&1; rm -f Makefile Makefile.conf", cwd=COQ)
+        # source-derived input of the development: the crate's named constants as /repo/src states them now
+        import srcconsts
+        src_consts = srcconsts.regenerate(COQ)
         rc, out = run("coq_makefile -f _CoqProject -o Makefile >/dev/null && timeout 1500 make -j16", cwd=COQ)
         if rc != 0:
             tail = "\n".join(out.strip().split("\n")[-12:])
@@ -124,10 +132,15 @@ def coq_gate(prop_file, clean=False):
                 if closed != n_print:
                     problems.append("Print Assumptions: %d of %d closed; output:\n%s" % (closed, n_print, out2[-1500:]))
                 assumptions = ["Closed under the global context"] * closed
+                if thorough and not problems:
+                    # independent re-check of the compiled property file and everything it depends on
+                    ok, chk_out = coqchk(prop_file)
+                    if not ok:
+                        problems.append("coqchk failed: " + chk_out[-600:])
     finally:
         lk.close()
     return dict(ok=not problems, problems=problems, theorems=theorems, assumptions=assumptions,
-                wall_s=time.time() - t0,
+                wall_s=time.time() - t0, coqchk=(chk_out[-700:] if chk_out else None), src_consts=src_consts,
                 checker_cmd="cd /verif/coq && coq_makefile -f _CoqProject -o Makefile && make -j16 && coqc -Q . HC props/%s" % prop_file)
 
 
@@ -426,6 +439,37 @@ class Result:
         if sample is not None and len(self.samples) < 6:
             self.samples.append(sample)
 
+    def escalate(self):
+        """A proof obligation or the correspondence broke but no case of this run violates the property: search
+        harder (the thorough generators, time-boxed) for a concrete failing input before reporting
+        no-failing-input-found. Returns True when the deeper search printed a VIOLATION with a replay."""
+        if self.tier != "quick" or os.environ.get("VERIF_ESCALATED") or os.environ.get("VERIF_NO_ESCALATE"):
+            return False
+        log("%s: theorem or correspondence no longer checks; escalating the search for a failing input" % self.prop)
+        try:
+            p = subprocess.run([os.path.join(VERIF, "check"), self.prop, "thorough"], cwd=VERIF,
+                               env=dict(os.environ, VERIF_ESCALATED="1", VERIF_TIER="thorough"),
+                               stdout=subprocess.PIPE, stderr=subprocess.DEVNULL, text=True,
+                               timeout=int(os.environ.get("VERIF_ESCALATE_S", "900")))
+            out = p.stdout
+        except subprocess.TimeoutExpired as e:
+            out = e.stdout or ""
+            if isinstance(out, bytes):
+                out = out.decode("utf8", "replace")
+        self.notes.append("escalated search was run (thorough generators, time-boxed)")
+        for l in out.split("\n"):
+            if l.startswith("VIOLATION") and "no-failing-input-found" not in l and "replay=" in l:
+                src = l.split("replay=")[1].split(" ")[0]
+                try:
+                    j = json.load(open(src))
+                    j["found_by"] = "escalated search after a broken proof obligation / correspondence"
+                    path = write_replay(self.prop, "violation", j)
+                except Exception:
+                    path = src
+                print("VIOLATION property=%s replay=%s" % (self.prop, path))
+                return True
+        return False
+
     def finish(self, level_text, rule, obligations_extra=None):
         """prints verdict lines, writes evidence, returns exit code"""
         known = load_known()
@@ -446,6 +490,8 @@ class Result:
                 property=self.prop, kind="property violated on the implementation", what=v["what"],
                 replay=v.get("replay"), more=len(unknown) - 1))
             print("VIOLATION property=%s replay=%s" % (self.prop, path))
+            code = 1
+        elif ((self.gate and not self.gate["ok"]) or self.disagreements) and self.escalate():
             code = 1
         elif (self.gate and not self.gate["ok"]) or self.disagreements:
             what = []
@@ -491,6 +537,8 @@ class Result:
                 samples=self.samples,
                 distribution=self.dist,
                 correspondence_disagreements=len(self.disagreements),
+                **({"coqchk": gate["coqchk"]} if gate.get("coqchk") else {}),
+                **({"source_constants_tied": gate["src_consts"]} if gate.get("src_consts") else {}),
                 **self.extra),
             assumptions=[level_text] + self.notes,
             wall_s=round(time.time() - self.t0, 2),
